@@ -58,15 +58,33 @@ func Gen(f Focus, thorough bool) *rapid.Generator[Script] {
 		}
 		n := rapid.IntRange(0, maxN).Draw(t, "n")
 		mode := pick(t, "mode", "burst", "mixed", "mixed", "trickle", "single", "pauses")
-		if mode == "single" {
+		hugeOneIn := 160
+		if thorough {
+			hugeOneIn = 60
+		}
+		huge := rapid.IntRange(0, hugeOneIn-1).Draw(t, "hugej") == 0
+		if huge {
+			// JoinSize beyond any internal chunk size, with enough elements to fill it
+			s.J = pick(t, "Jhuge", uint(1025), 2048, 3000)
+			mode = "burst"
+		}
+		if huge {
+			n = rapid.IntRange(1100, 3300).Draw(t, "nhuge")
+			if s.Kind == KindV2Unite {
+				n /= 4
+			}
+		} else if mode == "single" {
 			n = rapid.IntRange(1, 2).Draw(t, "n1")
-		} else if rapid.IntRange(0, 15).Draw(t, "long") == 0 {
+		} else if rapid.IntRange(0, 29).Draw(t, "long") == 0 {
+			// many elements, arriving quickly (long pauses would cost thousands of ticks each)
 			n = rapid.IntRange(60, 200).Draw(t, "nlong")
+			mode = pick(t, "longmode", "burst", "burst", "trickle")
 		}
 		lenPool := []int{0, 1, 1, 2, 3, int(s.J) - 1, int(s.J), int(s.J) + 1, 2 * int(s.J), 10*int(s.J) + 1}
 		if s.J > 100 {
 			lenPool = []int{0, 1, 2, 3, 7, 100, int(s.J) - 1, int(s.J), int(s.J) + 1}
 		}
+		total := 0
 		for i := 0; i < n; i++ {
 			var g int64
 			switch mode {
@@ -89,6 +107,10 @@ func Gen(f Focus, thorough bool) *rapid.Generator[Script] {
 				if l < 0 {
 					l = 0
 				}
+				if total+l > 4000 {
+					l = min(l, 3) // keep the number of elements per script bounded
+				}
+				total += l
 			}
 			s.Prod = append(s.Prod, PStep{Gap: g, Len: l})
 		}
